@@ -385,6 +385,19 @@ def gen(rng, want=None):
         w.cell.setdefault(c2, d2)
         w.triggers.append([c1] + _word(rng, w, 0, 3) + [c2])
         w.triggers.append([c1, c1] + _word(rng, w, 1, 2) + [c2] + _word(rng, w, 0, 1) + [c2])
+        if rng.random() < 0.5:
+            # a second grouping and a rule that REPLACES the delimiters of the first by those of the second (`;name`): the
+            # pass input is copied for that, whatever its length (seeded change C01-H sized the copy by the output capacity)
+            rest = [c for c in w.puncts + EXTRA[:4] if c not in (c1, c2)]
+            if len(rest) >= 2:
+                c3, c4 = rng.sample(rest, 2)
+                d3, d4 = newcell(), newcell()
+                L.append("grouping grq %s%s %s,%s" % (ch(c3), ch(c4), dots_str(d3), dots_str(d4)))
+                w.cell.setdefault(c3, d3)
+                w.cell.setdefault(c4, d4)
+                L.append("noback %s {grp ;grq*" % rng.choice(["correct", "correct", "context"]))
+                w.features.add("correct")
+                w.triggers.append(_word(rng, w, 1, 3) + [c1] + _word(rng, w, 1, 4) + [c2] + _word(rng, w, 0, 2))
     # ---- match
     if feat("match", 0.3):
         for _ in range(rng.randint(1, 2)):
